@@ -41,6 +41,7 @@ def check(m, run):
     run.assume('a list returned by a getter is not mutated by the caller')
     from . import c09 as _c09
     _c09.reads_through_getters(m, run)      # a cached view is read only through its lazily filling getter (a direct read sees an empty or stale cache)
+    rs.iv9_edits_through_setters(m, run)
 
 
 def iv5(m, run, keep=None):
